@@ -590,6 +590,15 @@ impl Drv {
         };
         if a > (1 << 63) { if self.rng.gen_bool(0.5) { 0 } else { a } } else { a }
     }
+    /// a readable placement of n bytes inside the stack (heap = false) or the heap; the caller checked it fits
+    fn place(&mut self, heap: bool, n: u64) -> u64 {
+        let (st, hp) = (self.m.st(), self.m.hp);
+        if heap {
+            match self.rng.gen_range(0..4) { 0 => hp, 1 => MEM - n, _ => self.rng.gen_range(hp..=MEM - n) }
+        } else {
+            match self.rng.gen_range(0..4) { 0 => 0, 1 => st - n, _ => self.rng.gen_range(0..=st - n) }
+        }
+    }
     fn probes(&mut self, extra: &[u64]) {
         let (st, hp) = (self.m.st(), self.m.hp);
         let mut bs = vec![st, hp, MEM];
@@ -673,17 +682,17 @@ impl Drv {
                 56..=72 => {
                     let n = match self.rng.gen_range(0..14) { 0 => 0, 1 => self.near_mem(), 2 => self.huge(), 3 => self.pow().min(1 << 16),
                                                               4..=8 => [1u64, 2, 8, 8, 32, 64][self.rng.gen_range(0..6)], _ => self.small() };
+                    let (fs, fh) = (st >= n, MEM - hp >= n);
                     // a source that is (mostly) a readable placement of n bytes, then a destination related to it
-                    let s = match self.rng.gen_range(0..10) {
-                        0 | 1 if st >= n => self.rng.gen_range(0..=st - n),
-                        2 if st >= n => st - n,
-                        3 if st >= n => 0,
-                        4 | 5 if MEM - hp >= n => self.rng.gen_range(hp..=MEM - n),
-                        6 if MEM - hp >= n => hp,
-                        7 if MEM - hp >= n => MEM - n,
-                        _ => self.addr(n),
-                    };
-                    let d = match self.rng.gen_range(0..16) {
+                    let mut s_heap = None;
+                    let s = if (fs || fh) && self.rng.gen_bool(0.85) {
+                        let heap = if fs && fh { self.rng.gen_bool(0.5) } else { fh };
+                        s_heap = Some(heap);
+                        self.place(heap, n)
+                    } else { self.addr(n) };
+                    let cross = fs && fh && s_heap.is_some() && self.rng.gen_bool(0.35);
+                    let d = match self.rng.gen_range(0..22) {
+                        _ if cross => self.place(!s_heap.unwrap(), n),
                         0 => s,
                         1 => s.wrapping_add(1),
                         2 => s.wrapping_sub(1),
@@ -693,15 +702,20 @@ impl Drv {
                         7 | 8 => s.wrapping_sub(n),
                         9 => s.wrapping_add(n).wrapping_add(1),
                         10 => s.wrapping_sub(n).wrapping_sub(1),
-                        11 if st >= n => self.rng.gen_range(0..=st - n),
-                        12 if MEM - hp >= n => self.rng.gen_range(hp..=MEM - n),
-                        13 => { let k = self.rng.gen_range(0..=n); s.wrapping_add(k) }
-                        14 => { let k = self.rng.gen_range(0..=n); s.wrapping_sub(k) }
+                        11 => { let k = self.rng.gen_range(0..=n); s.wrapping_add(k) }
+                        12 => { let k = self.rng.gen_range(0..=n); s.wrapping_sub(k) }
+                        13..=16 if fs => self.place(false, n),
+                        17..=20 if fh => self.place(true, n),
                         _ => self.addr(n),
                     };
-                    let (d, s) = if self.rng.gen_bool(0.5) { (d, s) } else { (s, d) };
+                    let (d, s) = if self.rng.gen_bool(0.25) { (s, d) } else { (d, s) };
+                    // give the source something to copy
+                    if n >= 1 && n <= 4096 && self.rng.gen_bool(0.7) && self.m.verify(s, n).map(|r| r.is_ok()).unwrap_or(false) {
+                        let data = self.data(n as usize);
+                        self.write(s, &data);
+                    }
                     extra.push(d);
-                    self.copy(d, s, n);
+                    if !self.dead { self.copy(d, s, n); }
                     if !self.dead && n > 0 {
                         if n <= 1024 { self.read(d, n); } else { self.dump(d, n); }
                         if self.rng.gen_bool(0.3) && !self.dead { self.dump(d.saturating_sub(64), n.saturating_add(128)); }
